@@ -434,6 +434,109 @@ def _tag(b: Dict[str, Any]) -> Dict[str, Any]:
     return {"body": b["body"], "ctype": b["ctype"], "encoding": b.get("enc")}
 
 
+# ---------------------------------------------------------------------------
+# pipelined requests: several written back to back, the server answers with delays
+# ---------------------------------------------------------------------------
+RUN_PIPE = "vf.checks.c11:run_pipelined"
+
+
+def run_pipelined(ctl: explorer.Ctl, cfg: Dict[str, Any]) -> Dict[str, Any]:
+    """All requests are written before any answer exists; each answer is delayed by the configured (virtual) time.
+    Whether the transport posts them one after the other or concurrently, every request must get its own terminal."""
+    from chuk_mcp.protocol.messages.json_rpc_message import JSONRPCNotification, JSONRPCRequest
+    from chuk_mcp.transports.http.http_client import http_client
+    from chuk_mcp.transports.http.parameters import StreamableHTTPParameters
+    import asyncio as _a
+
+    steps = cfg["steps"]
+    rids = request_ids(steps)
+    loop = new_loop(horizon=600)
+    q = seams.Quiescence(loop)
+    by_id = {json.dumps(r): n for n, r in enumerate(rids)}
+    posts_by_step: Dict[int, Any] = {}
+    got_all: List[Any] = []
+    info: Dict[str, Any] = {}
+
+    async def handler(rec):
+        sent = rec.json()
+        n = by_id.get(json.dumps(sent.get("id") if isinstance(sent, dict) else None))
+        if n is None:
+            return httpx.Response(500, content=b"unknown request")
+        posts_by_step[n] = (sent, rec.headers)
+        s = steps[n]
+        b = _beh(s)
+        await _a.sleep(s.get("delay", 0.0))
+        if "exc" in b:
+            return httpx.ConnectError("connection refused")
+        raw, ctype = render(b, rids[n])
+        headers = {"content-type": ctype} if ctype else {}
+        return httpx.Response(b["status"], headers=headers, content=raw)
+
+    async def main():
+        with patched_httpx(handler) as px:
+            info["px"] = px
+            async with http_client(StreamableHTTPParameters(url=URL, timeout=5.0)) as (read, write):
+                for n, s in enumerate(steps):
+                    await write.send(JSONRPCRequest(id=rids[n], method="tools/list", params={"n": n}))
+                await _a.sleep(sum(s.get("delay", 0.0) for s in steps) + 1.0)
+                await q.settle()
+                try:
+                    while True:
+                        got_all.append(read.receive_nowait())
+                except (anyio.WouldBlock, anyio.EndOfStream):
+                    pass
+
+    status, val = loop.run_main(main())
+    errors = loop.collect_errors()
+    loop.abandon()
+    if status != "ok":
+        return {"outcome": status, "violations": [{"sig": {"class": "did-not-finish", "part": "pipelined"}, "msg": f"steps={steps}: {status} {val!r}"}]}
+    # attribute delivered messages to requests by id (notifications in a body are attributed to the request they follow)
+    dumped = [dump_msg(m) for m in got_all]
+    got_per_step: List[List[Any]] = [[] for _ in steps]
+    for m in dumped:
+        key = json.dumps(m.get("id")) if isinstance(m, dict) else None
+        n = by_id.get(key)
+        if n is not None and isinstance(m, dict) and "method" not in m:
+            got_per_step[n].append(m)
+    posts = [posts_by_step.get(n, (None, {})) for n in range(len(steps))]
+    viol: List[dict] = []
+    summary = []
+    for n, s in enumerate(steps):
+        b = _beh(s)
+        ex = expected(b, rids[n])
+        own = got_per_step[n]
+        want_terminal = [m for alt in ex["alts"][:1] for m in alt if isinstance(m, dict) and "method" not in m and m.get("id") == rids[n]]
+        if n not in posts_by_step:
+            viol.append({"sig": {"class": "request-not-posted", "part": "pipelined"}, "msg": f"steps={steps}: request {n} never POSTed"})
+            summary.append("unposted")
+        elif len(own) != 1:
+            viol.append({"sig": {"class": "no-terminal-message" if not own else "several-terminals", "part": "pipelined",
+                                 "body": _tag(b)["body"]},
+                         "msg": f"steps={[(_tag(_beh(x))['body'], x.get('delay')) for x in steps]}: request {n} (id {rids[n]!r}) got {own}; "
+                                f"all delivered: {dumped}"})
+            summary.append(f"{len(own)}-terminals")
+        elif want_terminal and not strict_eq({k: v for k, v in own[0].items() if v is not None or k == 'result'}, want_terminal[0]):
+            viol.append({"sig": {"class": "wrong-messages", "part": "pipelined"}, "msg": f"request {n}: {own[0]} vs {want_terminal[0]}"})
+            summary.append("wrong")
+        else:
+            summary.append("ok")
+    if errors:
+        viol.append({"sig": {"class": "loop-error"}, "msg": f"{errors[:2]}"})
+    return {"outcome": "/".join(summary), "steps": [[_tag(_beh(x))["body"], x.get("delay")] for x in steps], "violations": viol}
+
+
+PIPE_BEHS = [
+    {"status": 200, "ctype": "json", "body": "resp"},
+    {"status": 200, "ctype": "sse", "body": "empty"},
+    {"status": 200, "ctype": "sse", "body": "nonjson"},
+    {"status": 202, "ctype": "absent", "body": "empty"},
+    {"status": 500, "ctype": "text", "body": "nonjson"},
+    {"exc": "connect"},
+    {"status": 200, "ctype": "sse", "body": "resp", "enc": "none/no-event-field/data-space/lf"},
+]
+
+
 REPS = [
     {"status": 200, "ctype": "json", "body": "resp"},
     {"status": 200, "ctype": "sse", "body": "notifs+resp", "enc": "canonical"},
@@ -505,6 +608,17 @@ def run(tier: str, only=None) -> core.Result:
             continue
         out = explorer.explore(RUN, cfgs, fidelity=True)
         sched.absorb(res, name, RUN, out, cfgs)
+    pcfgs = []
+    for k in (2, 3):
+        for combo in itertools.product(range(len(PIPE_BEHS)), repeat=k):
+            for delays in itertools.product((0.0, 0.3, 0.6), repeat=k):
+                if k == 3 and tier == "quick" and (len(set(combo)) == 3 or len(set(delays)) == 1):
+                    continue
+                pcfgs.append({"steps": [{"b": PIPE_BEHS[c], "req": ["id-a", "id-7", "id-a"][i], "delay": d}
+                                        for i, (c, d) in enumerate(zip(combo, delays))]})
+    if not only or "pipelined" in only:
+        out = explorer.explore(RUN_PIPE, pcfgs, fidelity=True)
+        sched.absorb(res, "pipelined-requests-with-delayed-answers", RUN_PIPE, out, pcfgs)
     if not only or "conformance" in only:
         from . import c11_conf
 
